@@ -11,7 +11,9 @@
 From Coq Require Import String.
 From Coq Require Import List Arith ZArith.
 Import ListNotations.
-From YP Require Import Base.Str Term.Term Unify.Unify Engine.Bounded Engine.BoundedQuery.
+From YP Require Import Base.Str Term.Term Term.Fast Unify.Unify Unify.UnifyGen Lang.Ast Comp.IR Comp.CompileClause Sem.Machine Sem.RunSem
+  Engine.GenMachine Engine.RunGen Engine.BoundedHeap Engine.Bounded Engine.BoundedQuery Engine.RunBoundedM Engine.BoundedMachine
+  Sem.ExecMono Sem.Native Sem.NativeExc Engine.NativeMono Engine.BoundedNative.
 
 (* "for a deeper or infinite search it returns a prefix of that sequence": the sequences at all depths
    are prefixes of each other, and a search that ends within depth n is the same at every deeper m *)
@@ -27,13 +29,80 @@ Theorem C17_sld_answers_prefix_monotone : forall (P : list clause) (fu : nat) (q
 Proof. exact sld_ans_mono. Qed.
 Print Assumptions C17_sld_answers_prefix_monotone.
 
+(* ... and for the engine model of compiled programs (Sem/Machine.v): EVERY query against EVERY IR program, with the
+   builtins =, \=, call/N, once/1, findall/3, cut and if-then-else; n = nesting depth of YP.query calls, the
+   call raises at depth 0.  machine_ans = the query variables resolved at each answer + how the search ended. *)
+Theorem C17_machine_answers_prefix_monotone : forall (ir : ir_program) (name : str) (args : list term) (nq n m : nat),
+  n <= m -> res_le (machine_ans ir name args nq n) (machine_ans ir name args nq m).
+Proof. exact machine_ans_mono. Qed.
+Print Assumptions C17_machine_answers_prefix_monotone.
+
+(* ... and for the full YP.query of Sem/Native.v: dynamic facts, registered Python predicates (arbitrary answer functions
+   that may raise; they do not depend on the depth) and the loaded script.  le_b r1 r2: r1 ended by an exception after a
+   prefix of r2's answers, or r2 = r1 *)
+Theorem C17_engine_with_python_predicates_prefix_monotone : forall (w : world) n m, n <= m ->
+  forall name args s, le_b (nquery n w name args s) (nquery m w name args s).
+Proof. exact nquery_depth_mono. Qed.
+Print Assumptions C17_engine_with_python_predicates_prefix_monotone.
+
+(* evaluate_bounded over such an engine (Sem/NativeExc.nqueryE: the exception OBJECT that ends the enumeration is known):
+   world_ans = the resolved query variables at each answer + ended normally / by an exception; world_gexc = the Python class
+   of that exception (RecursionError for the engine's depth error, another class for the object of a Python predicate) *)
+Theorem C17_engine_answers_prefix_monotone : forall (w : worldE) name args nq n m, n <= m ->
+  res_le (world_ans w name args nq n) (world_ans w name args nq m).
+Proof. exact world_ans_mono. Qed.
+Print Assumptions C17_engine_answers_prefix_monotone.
+
+Theorem C17_engine_result_is_prefix : forall (w : worldE) name args nq (B : Type)
+  (proj : nat -> list term -> nat -> pout B * nat) budget cur st limit (res_ : list B),
+  gs st = Susp 0 ->
+  fst (evaluate_bounded (world_ans w name args nq) (world_gexc w name args nq) proj budget cur true st limit) = Return res_ ->
+  running cur st -> forall m, budget limit cur <= m ->
+  exists l0, prefix l0 (fst (world_ans w name args nq m)) /\ projected proj 0 l0 res_.
+Proof. exact world_result_is_prefix. Qed.
+Print Assumptions C17_engine_result_is_prefix.
+
+(* what escapes from evaluate_bounded over such an engine is never the depth error: a ValueError for a limit below 1, an
+   exception of the projection function, or the exception object x of a Python predicate (or of a goal that is not callable)
+   that ended the enumeration - limit restored and generator closed by C17_rlimit_restored / ..._closed_on_every_branch *)
+Theorem C17_engine_no_depth_error_escapes : forall (w : worldE) name args nq (B : Type)
+  (proj : nat -> list term -> nat -> pout B * nat) budget cur st limit e,
+  running cur st ->
+  fst (evaluate_bounded (world_ans w name args nq) (world_gexc w name args nq) proj budget cur true st limit) = Propagate e ->
+  caught e = false /\
+  ((limit < 1 /\ e = value_error) \/ (exists k a r0 r1, proj k a r0 = (PRaise e, r1)) \/
+   (exists x, snd (nqueryE (budget limit cur) w name args (st0 nq)) = Some x /\ e = exc_of x /\ x <> XDepth /\ x <> XUnify)).
+Proof. exact world_no_depth_error_escapes. Qed.
+Print Assumptions C17_engine_no_depth_error_escapes.
+
+(* the two result theorems below, instantiated with the machine's queries: no hypothesis on the query is left *)
+Theorem C17_machine_result_is_prefix : forall (ir : ir_program) (name : str) (args : list term) (nq : nat) (B : Type)
+  (proj : nat -> list term -> nat -> pout B * nat) budget cur st limit (res_ : list B),
+  gs st = Susp 0 ->
+  fst (evaluate_bounded (machine_ans ir name args nq) (fun _ => ERuntime) proj budget cur true st limit) = Return res_ -> running cur st ->
+  forall m, budget limit cur <= m ->
+  exists l0, prefix l0 (fst (machine_ans ir name args nq m)) /\ projected proj 0 l0 res_.
+Proof. exact machine_result_is_prefix. Qed.
+Print Assumptions C17_machine_result_is_prefix.
+
+Theorem C17_machine_complete_when_shallow : forall (ir : ir_program) (name : str) (args : list term) (nq : nat) (B : Type)
+  (proj : nat -> list term -> nat -> pout B * nat) budget cur st limit,
+  gs st = Susp 0 -> running cur st -> setrl cur limit = inr limit ->
+  snd (machine_ans ir name args nq (budget limit cur)) = Norm ->
+  (forall k a r, exists b, proj k a r = (PVal b, r)) ->
+  exists res_, fst (evaluate_bounded (machine_ans ir name args nq) (fun _ => ERuntime) proj budget cur true st limit) = Return res_ /\
+    forall m, budget limit cur <= m ->
+      projected proj 0 (fst (machine_ans ir name args nq m)) res_ /\ snd (machine_ans ir name args nq m) = Norm.
+Proof. exact machine_complete_when_shallow. Qed.
+Print Assumptions C17_machine_complete_when_shallow.
+
 (* whatever happens, a returned result is the projection, in order, of a prefix of the answers at every
    depth at least the one the limit corresponds to *)
 Theorem C17_result_is_prefix : forall (A B : Type) (ans : nat -> res A),
   (forall n m, n <= m -> res_le (ans n) (ans m)) ->
-  forall proj budget cur has_close st limit (res_ : list B),
+  forall gexc proj budget cur has_close st limit (res_ : list B),
   gs st = Susp 0 ->
-  fst (evaluate_bounded ans proj budget cur has_close st limit) = Return res_ -> running cur st ->
+  fst (evaluate_bounded ans gexc proj budget cur has_close st limit) = Return res_ -> running cur st ->
   forall m, budget limit cur <= m -> exists l0, prefix l0 (fst (ans m)) /\ projected proj 0 l0 res_.
 Proof. exact result_is_prefix. Qed.
 Print Assumptions C17_result_is_prefix.
@@ -42,66 +111,68 @@ Print Assumptions C17_result_is_prefix.
    every answer in order" *)
 Theorem C17_complete_when_shallow : forall (A B : Type) (ans : nat -> res A),
   (forall n m, n <= m -> res_le (ans n) (ans m)) ->
-  forall (proj : nat -> A -> nat -> pout B * nat) budget cur has_close st limit,
+  forall gexc (proj : nat -> A -> nat -> pout B * nat) budget cur has_close st limit,
   gs st = Susp 0 -> running cur st -> setrl cur limit = inr limit ->
   snd (ans (budget limit cur)) = Norm ->
   (forall k a r, exists b, proj k a r = (PVal b, r)) ->
-  exists res_, fst (evaluate_bounded ans proj budget cur has_close st limit) = Return res_ /\
+  exists res_, fst (evaluate_bounded ans gexc proj budget cur has_close st limit) = Return res_ /\
     forall m, budget limit cur <= m -> projected proj 0 (fst (ans m)) res_ /\ snd (ans m) = Norm.
 Proof. exact complete_when_shallow. Qed.
 Print Assumptions C17_complete_when_shallow.
 
 (* "never lets a recursion-depth error escape": what propagates is never a RuntimeError (RecursionError)
-   or StopIteration; it is the ValueError for a limit below 1 or an exception of another class that the
-   projection function raised *)
-Theorem C17_no_depth_error_escapes : forall (A B : Type) (ans : nat -> res A)
+   or StopIteration; it is the ValueError for a limit below 1, an exception of another class that the
+   projection function raised, or the exception gexc d of another class that ended the enumeration itself
+   (a registered Python predicate raised it; gexc d = RecursionError for a search cut short by the limit) *)
+Theorem C17_no_depth_error_escapes : forall (A B : Type) (ans : nat -> res A) (gexc : nat -> exc)
   (proj : nat -> A -> nat -> pout B * nat) budget cur has_close st limit e,
   running cur st ->
-  fst (evaluate_bounded ans proj budget cur has_close st limit) = Propagate e ->
+  fst (evaluate_bounded ans gexc proj budget cur has_close st limit) = Propagate e ->
   caught e = false /\
-  ((limit < 1 /\ e = value_error) \/ (exists k a r0 r1, proj k a r0 = (PRaise e, r1))).
+  ((limit < 1 /\ e = value_error) \/ (exists k a r0 r1, proj k a r0 = (PRaise e, r1)) \/
+   (e = gexc (budget limit cur) /\ snd (ans (budget limit cur)) = Err)).
 Proof. exact no_depth_error_escapes. Qed.
 Print Assumptions C17_no_depth_error_escapes.
 
 (* "in every case - including an exception raised by the projection function - the interpreter's
    recursion limit is afterwards what it was before the call": no hypothesis on ans, proj, limit *)
-Theorem C17_rlimit_restored : forall (A B : Type) (ans : nat -> res A)
+Theorem C17_rlimit_restored : forall (A B : Type) (ans : nat -> res A) (gexc : nat -> exc)
   (proj : nat -> A -> nat -> pout B * nat) budget cur has_close st limit,
-  running cur st -> rl (snd (evaluate_bounded ans proj budget cur has_close st limit)) = rl st.
+  running cur st -> rl (snd (evaluate_bounded ans gexc proj budget cur has_close st limit)) = rl st.
 Proof. exact rlimit_restored. Qed.
 Print Assumptions C17_rlimit_restored.
 
 (* the query object is closed on every branch ... *)
-Theorem C17_generator_closed_on_every_branch : forall (A B : Type) (ans : nat -> res A)
+Theorem C17_generator_closed_on_every_branch : forall (A B : Type) (ans : nat -> res A) (gexc : nat -> exc)
   (proj : nat -> A -> nat -> pout B * nat) budget cur st limit,
-  running cur st -> gs (snd (evaluate_bounded ans proj budget cur true st limit)) = Done.
-Proof. intros. apply generator_closed_on_every_branch; auto. Qed.
+  running cur st -> gs (snd (evaluate_bounded ans gexc proj budget cur true st limit)) = Done.
+Proof. exact generator_closed_every_generator. Qed.
 Print Assumptions C17_generator_closed_on_every_branch.
 
-(* ... so "all query variables are unbound again", given the Restoring contract of generators (C03):
-   a finished generator holds no binding *)
-Theorem C17_vars_unbound_after : forall (A B : Type) (ans : nat -> res A)
-  (proj : nat -> A -> nat -> pout B * nat) budget cur (Hp : Type) (h0 : Hp) (holds : gstate -> Hp),
-  holds Done = h0 ->
-  forall st limit, running cur st ->
-  holds (gs (snd (evaluate_bounded ans proj budget cur true st limit))) = h0.
-Proof. intros. apply vars_unbound_after; auto. Qed.
+(* ... so "all query variables are unbound again".  On the generator-frame machine of C03 (frames over the heap of
+   Variable cells, leaves = engine.py's unification generators, d = recursion depth left by the limit): the for loop
+   resumes the query k times - it is left because the generator ended, because a RecursionError came up through its
+   frames, or because the projection function raised at the k-th answer - and the finally block closes what is left.
+   For every program, heap, fuel n, depth d and every k, the heap afterwards is the heap before the call. *)
+Theorem C17_vars_unbound_after : forall (E P : Type) (prog : P -> code (term * term) E P * E) (gho : E -> nat) n d k h c e h',
+  eb_final_heap prog gho n d k h c e = Some h' -> h' = h.
+Proof. exact eb_heap_restored. Qed.
 Print Assumptions C17_vars_unbound_after.
 
 (* the result is exactly what was collected: the except clauses drop nothing *)
-Theorem C17_result_collected_so_far : forall (A B : Type) (ans : nat -> res A)
+Theorem C17_result_collected_so_far : forall (A B : Type) (ans : nat -> res A) (gexc : nat -> exc)
   (proj : nat -> A -> nat -> pout B * nat) budget cur has_close st limit k0,
   gs st = Susp k0 -> running cur st -> forall r1, setrl cur limit = inr r1 ->
   forall e acc r2 g2,
-  loop proj (skipn k0 (fst (ans (budget limit cur)))) (snd (ans (budget limit cur))) k0 r1 [] = (e, acc, r2, g2) ->
-  fst (evaluate_bounded ans proj budget cur has_close st limit) = handle e acc.
+  loop proj (gexc (budget limit cur)) (skipn k0 (fst (ans (budget limit cur)))) (snd (ans (budget limit cur))) k0 r1 [] = (e, acc, r2, g2) ->
+  fst (evaluate_bounded ans gexc proj budget cur has_close st limit) = handle e acc.
 Proof. exact result_collected_so_far. Qed.
 Print Assumptions C17_result_collected_so_far.
 
 (* evaluate_bounded nested inside a projection function leaves the limit of the outer call alone *)
 Theorem C17_nested_keeps_rlimit : forall (A A' B' : Type) (ans' : A -> nat -> res A') proj' budget cur' limit' k a r,
   cur' < r -> snd (@nested_projection A A' B' ans' proj' budget cur' limit' k a r) = r.
-Proof. intros A A' B'. exact (@nested_keeps_rlimit A A' B'). Qed.
+Proof. exact nested_keeps_rlimit_all. Qed.
 Print Assumptions C17_nested_keeps_rlimit.
 
 (* non-vacuity: nat(z). nat(s(X)) :- nat(X).  The query nat(X) has infinitely many answers; at depth 3
@@ -117,16 +188,49 @@ Example C17_nonvacuous :
   let n := fun t => TFun (d "nat"%string) [t] in
   sld_ans nat_prog 50 nat_query 3 = ([n z; n (s z); n (s (s z))], Err) /\
   (let proj := fun (k : nat) (a : term) (r : nat) => (PVal a, r) in
-   evaluate_bounded (sld_ans nat_prog 50 nat_query) proj (fun l c => (l - c) / 10) 20 true
+   evaluate_bounded (sld_ans nat_prog 50 nat_query) (fun _ => ERuntime) proj (fun l c => (l - c) / 10) 20 true
                     {| rl := 1000; gs := Susp 0 |} 50
    = (Return [n z; n (s z); n (s (s z))], {| rl := 1000; gs := Done |})) /\
   (let proj := fun (k : nat) (a : term) (r : nat) => if Nat.eqb k 1 then (PRaise (EOther 0), r) else (PVal a, r) in
-   evaluate_bounded (sld_ans nat_prog 50 nat_query) proj (fun l c => (l - c) / 10) 20 true
+   evaluate_bounded (sld_ans nat_prog 50 nat_query) (fun _ => ERuntime) proj (fun l c => (l - c) / 10) 20 true
                     {| rl := 1000; gs := Susp 0 |} 50
    = (Propagate (EOther 0), {| rl := 1000; gs := Done |})) /\
   (* a limit that does not fit above the current depth: RecursionError from setrecursionlimit, caught *)
   (let proj := fun (k : nat) (a : term) (r : nat) => (PVal a, r) in
-   evaluate_bounded (sld_ans nat_prog 50 nat_query) proj (fun l c => (l - c) / 10) 20 true
+   evaluate_bounded (sld_ans nat_prog 50 nat_query) (fun _ => ERuntime) proj (fun l c => (l - c) / 10) 20 true
                     {| rl := 1000; gs := Susp 0 |} 15
    = (Return [], {| rl := 1000; gs := Done |})).
+Proof. vm_compute. repeat split. Qed.
+
+(* the same through the compiler and the engine model: the compiled nat/1 at call depth 3, and a search that
+   ends within depth 4 is the same at every larger depth *)
+Definition nat_src : program :=
+  [ {| c_name := d "nat"%string; c_args := [SAtom (d "z"%string)]; c_body := BTrue |};
+    {| c_name := d "nat"%string; c_args := [SFun (d "s"%string) [SVar (d "X"%string)]]; c_body := BCall (d "nat"%string) [SVar (d "X"%string)] |};
+    {| c_name := d "two"%string; c_args := [SVar (d "X"%string)];
+       c_body := BAnd (BCall (d "nat"%string) [SVar (d "X"%string)]) (BCall (d "="%string) [SVar (d "X"%string); SFun (d "s"%string) [SAtom (d "z"%string)]]) |};
+    {| c_name := d "first"%string; c_args := [SVar (d "X"%string)]; c_body := BCall (d "once"%string) [SFun (d "nat"%string) [SVar (d "X"%string)]] |} ].
+
+Example C17_machine_nonvacuous :
+  let z := TAtom (d "z"%string) in let s := fun t => TFun (d "s"%string) [t] in
+  match compile_program nat_src with
+  | Some ir =>
+      machine_ans ir (d "nat"%string) [TVar 0] 1 3 = ([[z]; [s z]; [s (s z)]], Err) /\
+      (* once(nat(X)) ends within depth 3 although nat/1 has infinitely many answers *)
+      machine_ans ir (d "first"%string) [TVar 0] 1 3 = ([[z]], Norm) /\
+      machine_ans ir (d "first"%string) [TVar 0] 1 2 = ([], Err) /\
+      (* nat(X), X = s(z): one answer, then the search goes on for ever *)
+      machine_ans ir (d "two"%string) [TVar 0] 1 6 = ([[s z]], Err) /\
+      evaluate_bounded (machine_ans ir (d "two"%string) [TVar 0] 1) (fun _ => ERuntime) (fun k a r => (PVal a, r)) (fun l c => (l - c) / 2) 20 true
+                       {| rl := 1000; gs := Susp 0 |} 32 = (Return [[s z]], {| rl := 1000; gs := Done |})
+  | None => False
+  end.
+Proof. vm_compute. repeat split. Qed.
+
+(* the heap theorem on the example of C03: a query abandoned after its first answer (the projection raised) and the
+   same query ended by an exception three frames down both leave the heap [(7, keep)] they started from *)
+Example C17_heap_nonvacuous :
+  eb_final_heap ex_prog2 (fun _ => 0) 100 10 1 [(7, A "keep")] (fst (ex_prog2 1)) tt = Some [(7, A "keep")] /\
+  eb_final_heap ex_prog2 (fun _ => 0) 100 10 2 [(7, A "keep")] (fst (ex_prog2 1)) tt = Some [(7, A "keep")] /\
+  eb_final_heap ex_prog2 (fun _ => 0) 100 1 1 [(7, A "keep")] (fst (ex_prog2 1)) tt = Some [(7, A "keep")].
 Proof. vm_compute. repeat split. Qed.
